@@ -126,6 +126,35 @@ def run_one(chk, sseed):
                     else:
                         cp["sources"].append({"name": f"evs{len(kinds)}", "version": "1", "directory": "pool/main/e/evs", "files": [(nm, size)]})
                         kinds.append(("source-file", shape))
+        # release flavours that disagree on Acquire-By-Hash: InRelease (read first) without it and listing the files under
+        # another checksum section whose "hashes" are hostile, Release with it
+        if rng.random() < 0.35 and not policy.endswith("no"):
+            cs["flavours"] = ["InRelease", "Release"]
+            cs["by_hash"] = True
+            cs["algos"] = ["SHA256"]
+            st0, _ = upstream.build_store(repo)
+            rel = st0[f"dists/{cn}/Release"][0].decode().split("\n")
+            head, entries, insec = [], [], False
+            for ln in rel:
+                if ln.startswith(" "):
+                    if insec:
+                        entries.append(ln.split())
+                elif ln.endswith(":") and ln[:-1] in ("MD5Sum", "SHA1", "SHA256", "SHA512"):
+                    insec = ln == "SHA256:"
+                elif ln and not ln.startswith("Acquire-By-Hash"):
+                    head.append(ln)
+            body = list(head) + ["MD5Sum:"]
+            names = hostile_names(rng, w.sb, url, cn, 3)
+            for i, (h, size, name) in enumerate(entries):
+                if name.startswith("main/binary-amd64/Evil"):
+                    continue
+                hv = ("%032x" % i)
+                if i < len(names) and name not in ("Release", "InRelease"):
+                    hv = names[i][1]
+                    kinds.append(("hash-field-mixed-flavours", names[i][0]))
+                    extra_store[str(PurePosixPath(f"dists/{cn}/{name}").parent / "by-hash" / "MD5Sum" / hv)] = st0[f"dists/{cn}/{name}"] if f"dists/{cn}/{name}" in st0 else (b"x", cs["date"])
+                body.append(f" {hv} {size} {name}")
+            cs["release_variant"] = "\n".join(body) + "\n"
         store, meta = upstream.build_store(repo)
         store.update(extra_store)
         # serve every pool path under its unnormalised name as well
